@@ -1181,7 +1181,7 @@ pub fn run() {
     });
 
     // (i-c) random circuits
-    let (n_rand, max_q, max_d) = t.pick((8000usize, 6usize, 40usize), (5_000_000usize, 10usize, 120usize));
+    let (n_rand, max_q, max_d) = t.pick((24000usize, 6usize, 40usize), (5_000_000usize, 10usize, 120usize));
     par_cases("random-circuits", n_rand, move |r, i| {
         let mut p = CircParams::unitary(max_q, max_d, PhPool::Float);
         p.pp = false;
@@ -1209,7 +1209,7 @@ pub fn run() {
     });
 
     // (ii) generated texts
-    let n_text = t.pick(10_000usize, 6_000_000usize);
+    let n_text = t.pick(30_000usize, 6_000_000usize);
     par_cases("generated-texts", n_text, move |r, i| {
         let p = gen_program(r, 12);
         check_text("generated-texts", i, &p);
@@ -1227,7 +1227,7 @@ pub fn run() {
     });
 
     // (iii) rejection corpus
-    let n_rej = t.pick(5000usize, 2_000_000usize);
+    let n_rej = t.pick(15000usize, 2_000_000usize);
     par_cases("unsupported-constructs", n_rej, move |r, i| {
         check_reject("unsupported-constructs", i, r);
     });
